@@ -183,11 +183,12 @@ var properties = map[string]*Property{
 		ID:    "C22",
 		Title: "The uniform syntax-tree wrapper round-trips every node losslessly",
 		Units: []Unit{
-			{Kind: "funcs", Pkg: "ast2", Funcs: ast2Lemmas()},
+			{Kind: "funcs", Pkg: "ast2", Funcs: append(ast2Lemmas(), "ToExprSlice", "ToStmtSlice", "ToIdentSlice")},
 		},
 		NotCovered: []string{
-			"storing children back (Set, Append) and therefore the round trip as a whole: the conversions ToExpr, ToStmt, ... dispatch twice over sixty dynamic types, and their verification conditions were not generated in usable time; Get is covered only for 'which indexes can be read', not for what is read",
-			"the list-like wrappers (BlockStmt, FieldList, File, GenDecl, ReturnStmt, Field) beyond New; the slice wrappers of ast_slice.go; ToNodes; Package (Get and Set are marked TODO in the code)",
+			"the round trip as ONE statement (all children at once) for statements with three and more children: it is proved slot by slot instead (read child i, store it into an empty copy, field i is the same), the whole-node lemma being too slow for the solvers; the slot-to-field correspondence assumed is 'i-th child = i-th child field of the go/ast struct in declaration order'",
+			"children that are not nodes of the slot's kind (Set converts them: a statement stored into an expression slot is wrapped); the element-by-element branch of ToExprSlice / ToStmtSlice / ToIdentSlice; Go 1.18 type parameter lists (TypeParams fields, IndexListExpr: ast2 does not carry them)",
+			"the list-like wrappers (BlockStmt, FieldList, File, GenDecl, ReturnStmt, Field) beyond New; the slice wrappers of ast_slice.go (Append, Slice); ToNodes; Package (Get and Set are marked TODO in the code)",
 			"positions, resolution information (Obj, Scope, Imports, Unresolved, GoVersion) and comments are outside the comparison (the property is position-insensitive)",
 		},
 	},
